@@ -510,5 +510,13 @@ def r13_8(ctx):
     delegate(ctx, c12.r12_11, lambda c: "_contents_eq" in c)
 
 
+def r13_9(ctx):
+    """R13.9 what auto.conf records is what sync_deps compares with: Symbol.config_string writes the evaluated value as it is (C02 R02.11a) -
+    a prefix added on the way makes every hex option differ from its own record, and its trigger file is touched by every run."""
+    from . import c02
+    from .common import delegate
+    delegate(ctx, c02.r02_11, lambda c: 'config_string' in c)
+
+
 def rules():
-    return [("R13.8", r13_8, 1), ("R13.7", r13_7, 1), ("R13.6", r13_6, 4), ("R13.5", r13_5, 3), ("R13.1", r13_1, 6), ("R13.1b", r13_1b, 2), ("R13.2", r13_2, 4), ("R13.3", r13_3, 4), ("R13.4", r13_4, 3)]
+    return [("R13.9", r13_9, 1), ("R13.8", r13_8, 1), ("R13.7", r13_7, 1), ("R13.6", r13_6, 4), ("R13.5", r13_5, 3), ("R13.1", r13_1, 6), ("R13.1b", r13_1b, 2), ("R13.2", r13_2, 4), ("R13.3", r13_3, 4), ("R13.4", r13_4, 3)]
